@@ -15,3 +15,5 @@ _N = ("Trusted base: rustc type checker/MIR construction/const-eval, faithful se
 
 for _pid in ["C%02d" % i for i in range(1, 20)]:
     _p(_pid, "structural necessary conditions decided on every path of the anchored functions; the end-to-end behaviour is not claimed (see DESIGN.md)", _N, _T)
+
+INFO["C19"]["level"] = "proof"
